@@ -42,8 +42,8 @@ CHECKS.update({
                      '<= every simple path; concrete per leaf: tree shape, first-vertex labels, reversal and sub-path consistency across all trees.',
                 tech='fork-based symbolic execution of lex_dijkstra/SPTree + z3 distance obligations against all simple paths'),
     'C13': dict(cat='exploration', ref='DESIGN.md §6 C13',
-                text='Topology-only property: adjacency bits are boolean variables decided through the engine, so every labelled simple graph on n<=5 '
-                     '(thorough 6, and the sparse/dense ends of 7) vertices is visited; on each the emitted set is checked with an independent union-find. '
+                text='Topology-only property: adjacency bits are boolean variables decided through the engine, so every labelled simple graph on n<=6 '
+                     '(thorough: also 7 vertices with m<=8 or m>=17) vertices is visited, plus seeded disjoint unions of 2-4 small components (<=16 vertices); on each the emitted set is checked with an independent union-find. '
                      'Exhaustive within the bound; the solver has nothing numeric to decide (degenerate case of the technique).',
                 tech='exhaustive enumeration of adjacency bits through the symbolic engine (no numeric solver content)'),
     'C14': dict(cat='model_checking', ref='DESIGN.md §6 C14',
@@ -56,8 +56,8 @@ CHECKS.update({
                      'each dropped edge has a <=2k-1-edge path of no-heavier retained edges; partition, subgraph and girth>2k are concrete per leaf.',
                 tech='fork-based symbolic execution (std::sort forks over all tie orders) + z3 obligations'),
     'C16': dict(cat='exploration', ref='DESIGN.md §6 C16',
-                text='Topology-only: every labelled simple graph on n<=5 (thorough 6) vertices in three insertion orders on the real adjacency_list; '
-                     'bijection/inverse, component count, dimension, forest flag and spanning-forest checks with an independent union-find. Exhaustive within the bound.',
+                text='Topology-only: every labelled simple graph on n<=6 vertices (thorough: also 7 vertices with m<=8 or m>=17) in up to three insertion orders, plus seeded disjoint unions of small components, on the real adjacency_list; '
+                     'bijection/inverse, component count, dimension, forest flag, spanning-forest and copy/assignment checks with an independent union-find. Exhaustive within the bound.',
                 tech='exhaustive enumeration of adjacency bits through the symbolic engine (no numeric solver content)'),
     'C17': dict(cat='model_checking', ref='DESIGN.md §6 C17',
                 text='SpVecGF2<symx::Int> (unbounded indices): inductive step from arbitrary canonical pre-states (sets of symbolic size <= L) and short '
